@@ -32,6 +32,20 @@ int main(int argc, char **argv) {
     if (id != 0 && ran.load() == 0) { printf("REPLAY-FAIL: ST3: a timer was ACCEPTED by a stopped service (id %llu) and is lost - stop() left _accepting set by the timed-out drain()\n", (unsigned long long)id); fflush(stdout); _exit(1); }
     printf("REPLAY-OK: refused\n"); fflush(stdout); _exit(0);
   }
+  if (in.count("MODE") && in["MODE"] == "reset_stale_heap") {
+    // RS3: a heap item that survives stop() -> reset() -> start() aliases the id of the first timer scheduled after the restart.
+    static TimerService s4; static std::atomic<int> ranA{0}; static std::atomic<long long> ranB{-1};
+    auto idA = s4.scheduleAfter(std::chrono::milliseconds(400), [] { ranA++; });
+    s4.cancel(idA);                                        // lazily discarded: the heap item stays until it is due
+    s4.stop(); s4.reset(); s4.start();
+    auto t0 = std::chrono::steady_clock::now();
+    auto idB = s4.scheduleAfter(std::chrono::milliseconds(3000), [t0] { ranB = std::chrono::duration_cast<std::chrono::milliseconds>(std::chrono::steady_clock::now() - t0).count(); });
+    std::this_thread::sleep_for(std::chrono::milliseconds(900));
+    printf("timer A id %llu (400 ms) cancelled; stop/reset/start; timer B id %llu (3000 ms): after 900 ms B ran at %lld ms (-1 = pending), heap size %zu\n",
+           (unsigned long long)idA, (unsigned long long)idB, ranB.load(), s4._heap.size()); fflush(stdout);
+    if (ranB.load() >= 0) { printf("REPLAY-FAIL: RS3: the handler of the 3000 ms timer ran %lld ms after scheduling - collected through the stale heap item of the cancelled timer with the same id\n", ranB.load()); fflush(stdout); _exit(1); }
+    printf("REPLAY-OK: not early\n"); fflush(stdout); _exit(0);
+  }
   long long INTERVAL = replay_io::i64(in["INTERVAL"]);
   static TimerService svc;
   static std::atomic<int> runs{0};
